@@ -143,7 +143,9 @@ pub fn drive(df: &mut dyn Runner, senders: &[Sender], log: &Log, nsink: usize, s
             }
             Ok(ret) => {
                 let ta = df.now();
-                let n = ta.saturating_sub(tb) as usize;
+                // number of ticks actually executed by this call, counted at dfir_rs' own
+                // `tick_swapped` yield point -- independent of the tick counter
+                let n = TICKS_THIS_CALL.with(|c| c.get()) as usize;
                 let mut ticks: Vec<Vec<Vec<Value>>> = vec![vec![Vec::new(); nsink]; n.max(1)];
                 let mut stray = 0usize;
                 for (k, t, v) in log.borrow_mut().drain(..) {
@@ -157,7 +159,7 @@ pub fn drive(df: &mut dyn Runner, senders: &[Sender], log: &Log, nsink: usize, s
                 if n == 0 {
                     ticks.clear();
                 }
-                let mut ev = json!({"e": "step", "mode": mode, "inputs": inputs, "tb": tb, "ta": ta,
+                let mut ev = json!({"e": "step", "mode": mode, "inputs": inputs, "tb": tb, "ta": ta, "nticks": n,
                                     "ret": ret, "stray": stray, "ticks": ticks});
                 // calibration histories carry the outputs asserted by the repository's own tests
                 if let Some(exp) = step.get("ticks") {
